@@ -121,7 +121,8 @@ class GeminiServerProtocol(asyncio.Protocol):
         self.url_line_received = False
         self.awaiting_titan_content = False
 
-        # One response per connection
+        # One request and one response per connection
+        self._request_dispatched = False
         self._response_sent = False
 
     def connection_made(self, transport: asyncio.BaseTransport) -> None:
@@ -161,8 +162,8 @@ class GeminiServerProtocol(asyncio.Protocol):
         Args:
             data: Raw bytes received from the client.
         """
-        # Nothing more to read once the response has been sent
-        if self._response_sent:
+        # One request per connection: ignore anything that follows it
+        if self._request_dispatched or self._response_sent:
             return
 
         self.buffer += data
@@ -249,6 +250,7 @@ class GeminiServerProtocol(asyncio.Protocol):
         request.client_cert_fingerprint = client_cert_fingerprint
 
         client_ip = self.peer_name[0] if self.peer_name else "unknown"
+        self._request_dispatched = True
 
         # Process through middleware if present
         if self.middleware:
@@ -598,6 +600,10 @@ class GeminiServerProtocol(asyncio.Protocol):
                 StatusCode.TEMPORARY_FAILURE, "Upload handler error"
             )
             return
+
+        # The complete upload has arrived: dispatch exactly once
+        self.awaiting_titan_content = False
+        self._request_dispatched = True
 
         client_ip = self.peer_name[0] if self.peer_name else "unknown"
 
